@@ -226,6 +226,20 @@ func (s *Sim) BuildWorld() {
 			})
 		}
 	}
+	if p.PolicyHeavy && len(s.Cons) > 1 {
+		// second directed shape: one mixed requirement naming two extensions (three / four sub mix filters whose order
+		// decides which pairing slots they constrain), on a consumer whose plan may allow up to five slots
+		c := s.Cons[1]
+		if projs := s.projectsOf(c); len(projs) > 0 {
+			pol := &planstypes.Policy{GeolocationProfile: int32(planstypes.Geolocation_GL), TotalCuLimit: 50000, EpochCuLimit: 5000, MaxProvidersToPair: 5,
+				ChainPolicies: []planstypes.ChainPolicy{{ChainId: "SPA", Requirements: []planstypes.ChainRequirement{
+					{Collection: spectypes.CollectionData{ApiInterface: "jsonrpc", Type: "POST"}, Extensions: []string{"archive", "trace"}, Mixed: true}}}, {ChainId: "*"}}}
+			m1 := &projectstypes.MsgSetPolicy{Creator: c.Addr, Project: projs[0], Policy: pol}
+			s.Tx("setpolicy", "directed: admin policy jsonrpc+archive+trace mixed", m1, func(ctx context.Context) (any, error) {
+				return s.TS.Servers.ProjectServer.SetPolicy(ctx, m1)
+			})
+		}
+	}
 	s.NextEpoch()
 }
 
@@ -574,6 +588,69 @@ func (s *Sim) opStRedelegate() {
 	msg := stakingtypes.NewMsgBeginRedelegate(del.Addr, d.GetValidatorAddr(), sdk.ValAddress(to.Addr), s.coin(amt))
 	s.Tx("st_redelegate", fmt.Sprintf("del=%s %s->%s amt=%d", short(del.Addr.String()), short(d.ValidatorAddress), short(to.Addr.String()), amt), msg, func(ctx context.Context) (any, error) {
 		return s.TS.Servers.StakingServer.BeginRedelegate(ctx, msg)
+	})
+}
+
+// opStBatch: one transaction with two or three x/staking messages of the same delegator, a redelegation among them
+// in a random position (the ante handler must reject a redelegation batched with anything else, in any order:
+// redelegations run with the dualstaking hooks disabled).
+func (s *Sim) opStBatch() {
+	del := s.someDelegator()
+	ds := s.stDelegations(del.Addr)
+	if len(ds) == 0 {
+		return
+	}
+	d := ds[s.R.Intn(len(ds))]
+	val, ok := s.TS.Keepers.StakingKeeper.GetValidator(s.TS.Ctx, d.GetValidatorAddr())
+	if !ok {
+		return
+	}
+	tokens := val.TokensFromShares(d.Shares).TruncateInt().Int64()
+	if tokens < 4 {
+		return
+	}
+	to := s.Vals[s.R.Intn(len(s.Vals))]
+	var msgs []sdk.Msg
+	var fs []func(ctx context.Context) (any, error)
+	desc := fmt.Sprintf("del=%s:", short(del.Addr.String()))
+	add := func(kind int) {
+		switch kind {
+		case 0:
+			m := stakingtypes.NewMsgBeginRedelegate(del.Addr, d.GetValidatorAddr(), sdk.ValAddress(to.Addr), s.coin(1+s.R.Int63n(tokens/4)))
+			msgs = append(msgs, m)
+			fs = append(fs, func(ctx context.Context) (any, error) { return s.TS.Servers.StakingServer.BeginRedelegate(ctx, m) })
+			desc += fmt.Sprintf(" redelegate(%s->%s %s)", short(d.ValidatorAddress), short(to.Addr.String()), m.Amount.Amount)
+		case 1:
+			m := stakingtypes.NewMsgDelegate(del.Addr, sdk.ValAddress(to.Addr), s.coin(int64(1+s.R.Intn(1000))))
+			msgs = append(msgs, m)
+			fs = append(fs, func(ctx context.Context) (any, error) { return s.TS.Servers.StakingServer.Delegate(ctx, m) })
+			desc += fmt.Sprintf(" delegate(%s %s)", short(to.Addr.String()), m.Amount.Amount)
+		default:
+			m := stakingtypes.NewMsgUndelegate(del.Addr, d.GetValidatorAddr(), s.coin(1+s.R.Int63n(tokens/4)))
+			msgs = append(msgs, m)
+			fs = append(fs, func(ctx context.Context) (any, error) { return s.TS.Servers.StakingServer.Undelegate(ctx, m) })
+			desc += fmt.Sprintf(" undelegate(%s %s)", short(d.ValidatorAddress), m.Amount.Amount)
+		}
+	}
+	n := 2 + s.R.Intn(2)
+	pos := s.R.Intn(n)
+	if s.R.Intn(8) == 0 {
+		pos = -1 // no redelegation at all: an ordinary batch that must be accepted with the hooks on
+	}
+	for i := 0; i < n; i++ {
+		if i == pos {
+			add(0)
+		} else {
+			add(1 + s.R.Intn(2))
+		}
+	}
+	s.TxMsgs("st_batch", desc, msgs, func(ctx context.Context) (any, error) {
+		for _, f := range fs {
+			if _, err := f(ctx); err != nil {
+				return nil, err
+			}
+		}
+		return nil, nil
 	})
 }
 
@@ -1139,7 +1216,7 @@ func (s *Sim) baseOpTable() []opEntry {
 		{"stake", s.opStake}, {"modify", s.opModify}, {"movestake", s.opMoveStake}, {"unstake", s.opUnstake},
 		{"freeze", func() { s.opFreeze(false) }}, {"unfreeze", func() { s.opFreeze(true) }},
 		{"ds_delegate", s.opDsDelegate}, {"ds_redelegate", s.opDsRedelegate}, {"ds_unbond", s.opDsUnbond}, {"ds_claim", s.opDsClaim},
-		{"st_delegate", s.opStDelegate}, {"st_undelegate", s.opStUndelegate}, {"st_redelegate", s.opStRedelegate}, {"st_cancel", s.opStCancel},
+		{"st_delegate", s.opStDelegate}, {"st_undelegate", s.opStUndelegate}, {"st_redelegate", s.opStRedelegate}, {"st_cancel", s.opStCancel}, {"st_batch", s.opStBatch},
 		{"slash", s.opSlash},
 		{"buy", s.opBuy}, {"buy_adv_replace", s.opBuyAdvanceReplace}, {"buy_then_upgrade", s.opBuyThenUpgrade}, {"autorenew", s.opAutoRenew}, {"addproject", s.opAddProject}, {"delproject", s.opDelProject},
 		{"addkeys", func() { s.opKeys(false) }}, {"delkeys", func() { s.opKeys(true) }},
